@@ -261,6 +261,15 @@ func (s *wscenario) begin(msgs []wmsg, hold, mayFail bool) int {
 	return c
 }
 
+// waitDone waits for call c to return, at most the watchdog bound (a change that blocks a call must cost seconds).
+func (s *wscenario) waitDone(c int) {
+	select {
+	case <-s.done[c]:
+	case <-time.After(watchdog()):
+		noteStuck()
+	}
+}
+
 // waitEntered waits until call c's first metadata lookup arrived at the fake, or the call returned.
 func (s *wscenario) waitEntered(c int) {
 	select {
@@ -311,7 +320,7 @@ func (s *wscenario) probeClosed() bool {
 	deadline := time.Now().Add(watchdog())
 	for time.Now().Before(deadline) {
 		c := s.begin(nil, false, false)
-		<-s.done[c]
+		s.waitDone(c)
 		s.rec.mu.Lock()
 		last := ""
 		for i := len(s.rec.toks) - 1; i >= 0; i-- {
@@ -409,7 +418,7 @@ func steered(kind int, r *rand.Rand, salt uint64) (string, string) {
 		// the same with earlier traffic on the same partitions still queued / in flight, and a second late call
 		c0 := s.begin(s.msgs(r, 1+r.Intn(3)), false, false)
 		if !cfg.async && cfg.timeout < time.Hour {
-			<-s.done[c0]
+			s.waitDone(c0)
 		}
 		c1 := s.begin(s.msgs(r, 1+r.Intn(2)), true, false)
 		c2 := s.begin(s.msgs(r, 1+r.Intn(2)), true, false)
@@ -424,7 +433,7 @@ func steered(kind int, r *rand.Rand, salt uint64) (string, string) {
 		c1 := s.begin(s.msgs(r, 1), true, false)
 		s.waitEntered(c1)
 		s.cancel(c1)
-		<-s.done[c1]
+		s.waitDone(c1)
 		if !cfg.async {
 			s2 := s.begin(s.msgs(r, 1), false, false)
 			time.Sleep(time.Millisecond)
@@ -440,9 +449,9 @@ func steered(kind int, r *rand.Rand, salt uint64) (string, string) {
 		c := s.begin(s.msgs(r, 2), false, false)
 		_ = c
 		s.closeBegin()
-		<-s.closed
+		<-waitOr(s.closed)
 		c2 := s.begin(s.msgs(r, 1), false, false)
-		<-s.done[c2]
+		s.waitDone(c2)
 	}
 	return s.finish(base)
 }
